@@ -63,6 +63,30 @@ def _pairwise(it):
     return list(zip(it, it[1:]))
 
 
+_BUILTIN_VALUES = {}
+
+
+def _builtin_value(name):
+    if name not in _BUILTIN_VALUES:
+        fn = _PURE_BUILTINS[name]
+
+        def call(*a, **k):
+            if name == 'enumerate' and len(a) == 1 and not k and isinstance(a[0], Obj):
+                return Opaque('enumerate(%s)' % a[0].name)       # (same as the direct call enumerate(<node>))
+            if not all(_concrete(x) for x in a) or not all(_concrete(x) for x in k.values()):
+                raise Unsupported('builtin %s applied to abstract values' % name)
+            try:
+                r = fn(*a, **k)
+            except (Raised, Unsupported):
+                raise
+            except Exception as ex:  # noqa
+                raise Raised(type(ex).__name__)
+            return list(r) if name in ('range', 'enumerate', 'zip', 'reversed', 'map', 'filter') else r
+        call._fde_ok = True
+        _BUILTIN_VALUES[name] = call
+    return _BUILTIN_VALUES[name]
+
+
 def _opfn(fn):
     fn._fde_ok = True
     return fn
@@ -753,6 +777,10 @@ class FDE:
             return ('objdictmethod', base, attr)
         if isinstance(base, dict) and attr in ('get', 'items', 'keys', 'values', 'pop', 'update', 'setdefault'):
             return ('dictmethod', base, attr)
+        if isinstance(base, (dict, list, tuple, set, str)) and not (isinstance(base, tuple) and base and isinstance(base[0], str) and base[0] in ('class', 'ext', 'kind', 'closure', 'unbound', 'partial')) \
+                and attr in ('__contains__', '__getitem__', '__len__'):
+            bm_ = getattr(base, attr)
+            return _opfn(lambda *a: bm_(*a))        # bound special method of a concrete container, used as a function (filter(d.__contains__, xs))
         import re as _re
         if isinstance(base, (_re.Pattern, _re.Match)) and not attr.startswith('_'):
             return ('pymethod', base, attr)
@@ -806,6 +834,8 @@ class FDE:
                 return ('class', e.id)
             if fi is not None and e.id in fi.module.functions and e.id not in fi.module.rebound:
                 return ('unbound', fi.module.functions[e.id])       # a module-level function used as a value
+            if e.id in _PURE_BUILTINS and (fi is None or (e.id not in fi.module.globals and e.id not in fi.module.imports)):
+                return _builtin_value(e.id)                          # enumerate / sorted / len ... handed over as a function
             raise Unsupported('free name %s in %s' % (e.id, fi.qualname if fi else '?'))
         if isinstance(e, ast.Attribute):
             if unparse(e) in self.extcalls and getattr(self.extcalls[unparse(e)], '_fde_ok', False):
@@ -843,6 +873,8 @@ class FDE:
                 if e.attr == 'ayns':
                     return ('classayns', base[1])
                 t = self.repo.resolve(base[1], e.attr)
+                if t is not None and t.is_classmethod:
+                    return ('partial', ('unbound', t), (('class', base[1]),), {})       # C.factory: the class is the first argument
                 if t is not None:
                     return ('unbound', t)
                 raise Unsupported('class member %s.%s' % (base[1], e.attr))
@@ -1083,7 +1115,7 @@ class FDE:
         if self._is_exc_class(n) or self.repo.is_subclass(n, 'ConfigNode'):
             return False
         for b in self.repo.mro(n)[1:]:
-            if b not in self.repo.classes and b not in ('object', 'NamedTuple', 'typing.NamedTuple'):
+            if b not in self.repo.classes and b not in ('object', 'NamedTuple', 'typing.NamedTuple') and not (ci.module.namedtuple_fields(n) is not None and '(' in b):
                 return False
         return True
 
@@ -1104,6 +1136,8 @@ class FDE:
     def _construct_plain(self, n, args, kwargs, env, fi):
         kind, fields = self._record_fields(n)
         ci = self.repo.classes[n]
+        if kind is None and ci.module.namedtuple_fields(n) is not None:
+            kind, fields = 'namedtuple', [(f_, None) for f_ in ci.module.namedtuple_fields(n)]        # class X(namedtuple('X', ...))
         mfi = None
         for g in ci.methods.values():
             mfi = g
@@ -1134,7 +1168,7 @@ class FDE:
                         raise Raised('TypeError')
                 else:
                     vals[name] = self._ev(d, {}, fi)
-            if kind == 'namedtuple' and not ci.methods:
+            if kind == 'namedtuple' and all(m.is_static or m.is_classmethod for m in ci.methods.values()):
                 import collections as _c
                 key = ('ntclass', n)
                 if key not in self.class_objs:
@@ -1370,6 +1404,8 @@ class FDE:
                 return env[n](*args, **kwargs)
             if n in env and isinstance(env[n], tuple) and env[n] and env[n][0] == 'closure':
                 return self._invoke(env[n][1], args, kwargs, base_env=env[n][2])
+            if n in env and isinstance(env[n], tuple) and len(env[n]) == 2 and env[n][0] == 'class' and env[n][1] in self.repo.classes and env[n][1] not in self.stubs and self._plain_class(env[n][1]):
+                return self._construct_plain(env[n][1], args, kwargs, env, fi)
             if n in env and isinstance(env[n], tuple) and len(env[n]) == 2 and env[n][0] == 'class':
                 self.effects.append(('instantiate', env[n][1], tuple(args), tuple(sorted(kwargs.items(), key=lambda kv: kv[0]))))
                 return Opaque('instance of ' + env[n][1])
@@ -1431,6 +1467,8 @@ class FDE:
                 if self.stub is not None:
                     return self.stub(name, target.recv, args, kwargs)
                 return target.recv
+            if isinstance(target, tuple) and target and target[0] == 'partial':
+                return self._apply(target, args, kwargs, e)
             if isinstance(target, tuple) and target and target[0] == 'unbound':
                 t = target[1]
                 if t.name not in self.stubs and t.qualname not in self.stubs:
